@@ -297,6 +297,10 @@ def mk_stubs():
         rid = ex.new_region('heap'); ex.mem[rid]['size'] = n
         return Ptr(rid, (0,))
     S['@malloc'] = malloc
+    def calloc(ex, n, sz):
+        rid = ex.new_region('heap'); ex.mem[rid]['size'] = (n, sz); ex.mem[rid]['cells'][()] = SymStr([''])      # zero-filled: as a string, empty
+        return Ptr(rid, (0,))
+    S['@calloc'] = calloc
     def afail(ex, *a):
         msg = ''
         try: msg = get_str(ex, a[0]).text()
@@ -491,6 +495,8 @@ def mk_stubs():
     def H5Pcreate(ex, cls):
         i = env(ex).new('plist', open=True); ev(ex, 'H5Pcreate', i); return i
     S['@H5Pcreate'] = H5Pcreate
+    S['@H5Pset_fill_time'] = lambda ex, p, t: (ev(ex, 'H5Pset_fill_time', idv(p), t), 0)[1]
+    S['@H5Pset_alloc_time'] = lambda ex, p, t: (ev(ex, 'H5Pset_alloc_time', idv(p), t), 0)[1]
     S['@H5Pset_deflate'] = lambda ex, p, lvl: (ev(ex, 'H5Pset_deflate', idv(p), lvl), 0)[1]
     S['@H5Pset_filter'] = lambda ex, p, flt, *a: (ev(ex, 'H5Pset_filter', idv(p), flt), 0)[1]
     def H5Tcreate(ex, cls, size):
